@@ -55,6 +55,20 @@ Proof.
   pose proof (tick_outs c h now d) as F. rewrite Forall_forall in F. auto.
 Qed.
 
+Lemma outs_after (P : output -> Prop) s0 s' o :
+  Forall quiet_out (outs s0) -> OutsExt P s0 s' -> In o (outs s') -> quiet_out o \/ P o.
+Proof.
+  intros F HO Hin. destruct (OutsExt_In _ _ _ _ HO Hin) as [H | H]; [left | right; exact H].
+  rewrite Forall_forall in F. auto.
+Qed.
+
+(* collect what is known about the state after the implicit tick, then forget how it was computed
+   (the body of fire_due must never be exposed to the unifier) *)
+Ltac tick_facts c h now d s0 TD TF TO TI :=
+  pose proof (tick_SessD c h now d) as TD; pose proof (tick_SessF c h now d) as TF;
+  pose proof (tick_outs c h now d) as TO; pose proof (tick_chall_incl c h now d) as TI;
+  set (s0 := tick c h now d) in *; clearbody s0.
+
 (* ------------------------------------------------------------------------------------------ *)
 (* well-formed events: the service answers HandlerOut::WhoAreYou(node_address) with the record it
    stores under that node id (or none) *)
@@ -179,20 +193,20 @@ Theorem incoming_identity c h from src n aad sg eph eph_ok rec ct now d h' out :
 Proof.
   intros Hfix Hok. rewrite step_eq. cbn [dispatch]. intros Hstep Heff.
   inversion Hstep as [[Eh Eo]]. clear Hstep.
-  set (s0 := tick c h now d) in *.
+  tick_facts c h now d s0 TD TF TO TI.
   pose proof (handle_auth_message_frame c s0 (src, from) n aad sg eph eph_ok rec ct now) as H.
   cbn zeta in H.
   assert (Hnone : forall s', hs s' = h' -> outs s' = out -> SessD (hs s0) (hs s') ->
             OutsExt failed_out s0 s' -> False).
   { intros s' E1 E2 HD HO. destruct Heff as [[o [Hin Ha]] | Hch].
-    - rewrite <- E2 in Hin. destruct (outs_after_tick _ c h now d s' o HO Hin) as [Hq | Hq].
+    - rewrite <- E2 in Hin. destruct (outs_after _ s0 s' o TO HO Hin) as [Hq | Hq].
       + exact (quiet_not_attributing _ Hq Ha).
       + exact (failed_not_attributing _ Hq Ha).
     - apply (SessD_not_changed h h'); [| exact Hch]. rewrite <- E1.
-      eapply SessD_trans; [apply tick_SessD | exact HD]. }
+      eapply SessD_trans; [exact TD | exact HD]. }
   destruct (chall_get (src, from) (challenges (hs s0))) as [ch |] eqn:Eg.
   - destruct (chall_get_In _ _ _ Eg) as [d0 Hin0].
-    pose proof (tick_chall_incl c h now d _ Hin0) as Hin.
+    pose proof (TI _ Hin0) as Hin.
     destruct (establish c (fst (src, from)) ch sg eph eph_ok rec) as [se e | |] eqn:Ee.
     + exists ch, d0. split; [exact Hin |].
       assert (Hk : forall known, ch_enr ch = Some known -> e_id known = fst (src, from)).
@@ -218,7 +232,7 @@ Theorem incoming_established_id c h from src n aad sg eph eph_ok rec ct now d h'
 Proof.
   intros Hfix Hok. rewrite step_eq. cbn [dispatch]. intros Hstep Hin.
   inversion Hstep as [[Eh Eo]]. clear Hstep.
-  set (s0 := tick c h now d) in *.
+  tick_facts c h now d s0 TD TF TO TI.
   pose proof (handle_auth_message_frame c s0 (src, from) n aad sg eph eph_ok rec ct now) as H.
   cbn zeta in H.
   assert (Hnone : forall s', outs s' = out -> OutsExt failed_out s0 s' -> False).
@@ -226,13 +240,13 @@ Proof.
     assert (Hx : exists o, In o (outs s') /\ attributing o).
     { rewrite E2. destruct Hin as [Hin | Hin]; eexists; (split; [exact Hin | exact I]). }
     destruct Hx as [o [Hi Ha]].
-    destruct (outs_after_tick _ c h now d s' o HO Hi) as [Hq | Hq].
+    destruct (outs_after _ s0 s' o TO HO Hi) as [Hq | Hq].
     - exact (quiet_not_attributing _ Hq Ha).
     - exact (failed_not_attributing _ Hq Ha). }
   destruct (chall_get (src, from) (challenges (hs s0))) as [ch |] eqn:Eg.
   2:{ exfalso. eapply Hnone; [exact Eo |]. rewrite H. apply OutsExt_refl. }
   destruct (chall_get_In _ _ _ Eg) as [d0 Hin0].
-  pose proof (tick_chall_incl c h now d _ Hin0) as Hinh.
+  pose proof (TI _ Hin0) as Hinh.
   destruct (establish c (fst (src, from)) ch sg eph eph_ok rec) as [se e0 | |] eqn:Ee.
   - assert (Hk : forall known, ch_enr ch = Some known -> e_id known = fst (src, from)).
     { intros known Ek. unfold ChallOK in Hok. rewrite Forall_forall in Hok.
@@ -244,7 +258,7 @@ Proof.
               msg_out_ok (hs s4) (src, from) n aad ct o).
     { intros o Ho. rewrite <- Eo in Ho.
       destruct (OutsExt_In _ _ _ _ OM Ho) as [Ho4 | Hm]; [| right; right; exact Hm].
-      destruct (outs_after_tick _ c h now d s4 o O4 Ho4) as [Hq | Hq]; [left; exact Hq | right; left; exact Hq]. }
+      destruct (outs_after _ s0 s4 o TO O4 Ho4) as [Hq | Hq]; [left; exact Hq | right; left; exact Hq]. }
     assert (HE : In (OEvent (HEstablished e a true)) out -> a = from /\ e_id e = src).
     { intros Hi. destruct (Hcls _ Hi) as [Hq | [[Hq | [Hq | Hq]] | Hq]]; cbn in Hq; try contradiction.
       - inversion Hq; subst. auto.
@@ -273,7 +287,7 @@ Theorem only_handshakes_create_sessions c h e now d :
   creates_sessions e = false -> SessD h (fst (step c h e now d)).
 Proof.
   intros He. rewrite step_eq. cbn [fst]. eapply SessD_trans; [apply tick_SessD |].
-  set (s0 := tick c h now d).
+  set (s0 := tick c h now d). clearbody s0.
   destruct e as [ct rid body | na rid rb | na n known | from p |]; cbn [dispatch].
   - pose proof (Quiet_send_request c s0 ct true rid body now) as [[_ D] _].
     destruct (send_request c s0 ct true rid body now) as [s1 ok]. cbn [fst] in D. destruct ok; exact D.
@@ -302,8 +316,9 @@ Theorem delivered_needs_session c h from src n aad ct now d h' out o :
   quiet_out o \/ msg_out_ok (hs (tick c h now d)) (src, from) n aad ct o.
 Proof.
   rewrite step_eq. cbn [dispatch]. intros Hstep Hin. inversion Hstep as [[Eh Eo]]. clear Hstep.
-  pose proof (handle_message_frame c (tick c h now d) (src, from) n aad ct now) as [_ HO].
-  rewrite <- Eo in Hin. exact (outs_after_tick _ c h now d _ o HO Hin).
+  tick_facts c h now d s0 TD TF TO TI.
+  pose proof (handle_message_frame c s0 (src, from) n aad ct now) as [_ HO].
+  rewrite <- Eo in Hin. exact (outs_after _ s0 _ o TO HO Hin).
 Qed.
 
 Corollary request_delivered c h from src n aad ct now d h' out na rid body :
@@ -413,26 +428,26 @@ Proof.
   2:{ left. apply only_handshakes_create_sessions. exact Ec. }
   destruct e as [| | | from p |]; try discriminate.
   destruct p as [| n idn seq cd | src n aad sg eph eph_ok rec ct]; try discriminate.
-  - rewrite step_eq. cbn [fst dispatch]. set (s0 := tick c h now d).
+  - rewrite step_eq. cbn [fst dispatch]. tick_facts c h now d s0 TD TF TO TI.
     destruct (handle_challenge_frame c s0 from n seq cd now) as [[_ D] | [ct [eph [aw [E HN]]]]].
-    + left. eapply SessD_trans; [apply tick_SessD | exact D].
-    + right. eexists. eexists. split; [eapply SessD_F_N; [apply tick_SessD | apply tick_SessF | exact HN] |].
+    + left. eapply SessD_trans; [exact TD | exact D].
+    + right. eexists. eexists. split; [eapply SessD_F_N; [exact TD | exact TF | exact HN] |].
       split; [reflexivity | split; [reflexivity |]]. exists eph, cd. right.
       split; [reflexivity | split; [reflexivity |]]. eauto.
-  - rewrite step_eq. cbn [fst dispatch]. set (s0 := tick c h now d).
+  - rewrite step_eq. cbn [fst dispatch]. tick_facts c h now d s0 TD TF TO TI.
     pose proof (handle_auth_message_frame c s0 (src, from) n aad sg eph eph_ok rec ct now) as H.
     cbn zeta in H. destruct (chall_get (src, from) (challenges (hs s0))) as [ch |] eqn:Eg.
     + destruct (establish c (fst (src, from)) ch sg eph eph_ok rec) as [se e0 | |] eqn:Ee.
       * destruct H as [s4 [_ [HN [_ [_ [[_ D] _]]]]]]. right. exists (src, from), se.
         destruct (establish_session _ _ _ _ _ _ _ _ _ Ee) as [Ese _].
-        split; [eapply SessD_F_N; [apply tick_SessD | apply tick_SessF | eapply SessN_D; eauto] |].
+        split; [eapply SessD_F_N; [exact TD | exact TF | eapply SessN_D; eauto] |].
         rewrite Ese at 1 2. split; [reflexivity | split; [reflexivity |]].
         exists eph, (ch_cd ch). left. rewrite Ese at 1 2. cbn [s_dec s_enc fst].
         split; [reflexivity | split; [reflexivity |]].
         exists from, src, n, aad, sg, eph_ok, rec, ct, ch. cbn [fst] in Ee. eauto 10.
-      * left. rewrite H. apply tick_SessD.
-      * left. destruct H as [_ [D _]]. eapply SessD_trans; [apply tick_SessD | exact D].
-    + left. rewrite H. apply tick_SessD.
+      * left. rewrite H. exact TD.
+      * left. destruct H as [_ [D _]]. eapply SessD_trans; [exact TD | exact D].
+    + left. rewrite H. exact TD.
 Qed.
 
 Theorem step_KeyInv c h e now d : KeyInv c h -> KeyInv c (fst (step c h e now d)).
